@@ -50,14 +50,14 @@ pub fn install_panic_hook() {
     }));
 }
 
-fn guarded<R>(f: impl FnOnce() -> R) -> Result<R, (String, String)> {
+pub fn guarded<R>(f: impl FnOnce() -> R) -> Result<R, (String, String)> {
     QUIET.with(|q| q.set(true));
     let r = catch_unwind(AssertUnwindSafe(f));
     QUIET.with(|q| q.set(false));
     r.map_err(|_| LAST_PANIC.with(|p| p.borrow_mut().take()).unwrap_or_default())
 }
 
-fn short_loc(loc: &str) -> String {
+pub fn short_loc(loc: &str) -> String {
     // keep "src/.../file.rs:line" for ggrs, crate name for dependencies
     if let Some(i) = loc.find("/repo/") {
         return loc[i + 6..].to_owned();
@@ -203,6 +203,8 @@ struct Node<C: SimCfg> {
     spectator_next: i32,
     /// newest frame number carried by an Input packet delivered to this (spectator) node
     clock_floor: u64,
+    min_fb_late: usize,
+    last_too_far: bool,
     frame_at_heal: Option<i32>,
 }
 
@@ -454,7 +456,7 @@ impl<'p, C: SimCfg> World<'p, C> {
             }
             // liveness bookkeeping
             if let Some(lv) = &self.plan.oracle.liveness {
-                if t >= lv.heal_us {
+                if t >= (lv.heal_us + lv.deadline_us) / 2 {
                     for n in self.nodes.iter_mut() {
                         if n.frame_at_heal.is_none() {
                             n.frame_at_heal = Some(n.game.g);
@@ -613,7 +615,8 @@ impl<'p, C: SimCfg> World<'p, C> {
             if e.pending_output > 128 + cfg.max_prediction + 8 {
                 bad.push(format!("endpoint for handle {hnd}: {} unacknowledged inputs", e.pending_output));
             }
-            if e.recv_inputs > 2 * cfg.max_prediction + 2 {
+            // a function of the configuration and the documented 128-entry output queue only
+            if e.recv_inputs > (2 * cfg.max_prediction).max(129) + 2 {
                 bad.push(format!("endpoint for handle {hnd}: {} remembered received inputs (window {})", e.recv_inputs, cfg.max_prediction));
             }
             if e.pending_checksums > 64 {
@@ -839,6 +842,7 @@ impl<'p, C: SimCfg> World<'p, C> {
                     num_players: cfg.num_players,
                     max_prediction: cfg.max_prediction,
                     max_advances: 1,
+                    expect_first_save: !lockstep,
                     t_us: self.now,
                     node: i,
                 };
@@ -1057,6 +1061,7 @@ impl<'p, C: SimCfg> World<'p, C> {
             }
             Err(GgrsError::SpectatorTooFarBehind) => {
                 self.probes.spectator_too_far += 1;
+                node.last_too_far = true;
                 if o.spectator_stream && newest < g0 + 60 {
                     self.viol.push(Violation { class: "c06.too_far_behind_unjustified".into(), text: format!("spectator reports SpectatorTooFarBehind at frame {g0} but the newest frame delivered to it is {newest}"), t_us: self.now, node: i, frame: g0 });
                 }
@@ -1065,7 +1070,7 @@ impl<'p, C: SimCfg> World<'p, C> {
                 self.viol.push(Violation { class: "c02.unexpected_error".into(), text: format!("spectator advance_frame returned {e:?}"), t_us: self.now, node: i, frame: g0 });
             }
             Ok(reqs) => {
-                let ctx = ExecCtx { kind: SessKind::Spectator, num_players: np, max_prediction: cfg.max_prediction, max_advances: catchup.max(1), t_us: self.now, node: i };
+                let ctx = ExecCtx { kind: SessKind::Spectator, num_players: np, max_prediction: cfg.max_prediction, max_advances: catchup.max(1), expect_first_save: false, t_us: self.now, node: i };
                 let advs = node.game.exec::<C>(reqs, &ctx, &mut self.viol);
                 let k = advs.len();
                 let cf = s.current_frame();
@@ -1085,6 +1090,12 @@ impl<'p, C: SimCfg> World<'p, C> {
                         return;
                     }
                     Ok(fb) => {
+                        if let Some(lv) = &self.plan.oracle.liveness {
+                            if self.now + 1_000_000 >= lv.deadline_us {
+                                let n = &mut self.nodes[i];
+                                n.min_fb_late = n.min_fb_late.min(fb);
+                            }
+                        }
                         if o.spectator_stream && k > 1 && !(k <= catchup && fb + k > max_behind) {
                             let g = self.nodes[i].game.g;
                             self.violate("c06.catchup_rule", i, g, format!("spectator advanced {k} frames in one call with catchup_speed {catchup}, max_frames_behind {max_behind}, {} frames buffered before the call", fb + k));
@@ -1140,7 +1151,8 @@ impl<'p, C: SimCfg> World<'p, C> {
         if self.viol.is_empty() && !self.fatal {
             // liveness after the last fault
             if let Some(lv) = &plan.oracle.liveness {
-                if self.now >= lv.deadline_us.min(plan.horizon_us) {
+                if plan.horizon_us >= lv.deadline_us {
+                    self.now = self.now.max(lv.deadline_us);
                     for i in 0..self.nodes.len() {
                         if !self.nodes[i].alive {
                             continue;
@@ -1154,12 +1166,30 @@ impl<'p, C: SimCfg> World<'p, C> {
                         if !running {
                             self.violate("c05.not_running", i, g, format!("node {i} is still Synchronizing {} ms after the last fault", (self.now - lv.heal_us) / 1000));
                         } else if g - at_heal < lv.min_frames {
+                            // a spectator that fell more than its 60-slot ring behind is told so and
+                            // can never resume: reported under its own class
+                            let class = if self.nodes[i].last_too_far { "c05.spectator_too_far_behind" } else { "c05.wedged" };
                             self.violate(
-                                "c05.wedged",
+                                class,
                                 i,
                                 g,
-                                format!("node {i} advanced only {} frames (from {at_heal} to {g}) in the {} ms after the last fault (required {})", g - at_heal, (self.now - lv.heal_us) / 1000, lv.min_frames),
+                                format!(
+                                    "node {i} advanced only {} frames (from {at_heal} to {g}) between {} ms and {} ms after the last fault (required {})",
+                                    g - at_heal,
+                                    (lv.deadline_us - lv.heal_us) / 2000,
+                                    (lv.deadline_us - lv.heal_us) / 1000,
+                                    lv.min_frames
+                                ),
                             );
+                        } else if let Sess::Spec(s) = &self.nodes[i].sess {
+                            let (catchup, max_behind) = (self.nodes[i].catchup, self.nodes[i].max_behind);
+                            // smallest backlog seen in the last second: arrival jitter makes the instantaneous
+                            // figure bounce, a spectator that really caught up touches the target repeatedly
+                            let _ = s;
+                            let fb = self.nodes[i].min_fb_late;
+                            if catchup >= 2 && fb != usize::MAX && fb > max_behind + 2 {
+                                self.violate("c05.spectator_lagging", i, g, format!("spectator node {i} is still {fb} frames behind its host {} ms after the last fault (max_frames_behind {max_behind}, catchup_speed {catchup})", (self.now - lv.heal_us) / 1000));
+                            }
                         }
                     }
                 }
@@ -1262,6 +1292,8 @@ impl<C: SimCfg> Node<C> {
             grammar: BTreeMap::new(),
             spectator_next: 0,
             clock_floor: 0,
+            min_fb_late: usize::MAX,
+            last_too_far: false,
             frame_at_heal: None,
         }
     }
@@ -1281,6 +1313,13 @@ pub fn ev_name(e: &Ev) -> &'static str {
 
 /// Executes a plan with the predictor it names.
 pub fn run_plan(plan: &Plan) -> Result<RunOut, String> {
+    if let Mode::SyncTest { check_distance, frames, expect_reject } = plan.mode {
+        return if plan.cfg.predict_default {
+            crate::synctest::run::<CfgDefault>(plan, check_distance, frames, expect_reject)
+        } else {
+            crate::synctest::run::<CfgRepeat>(plan, check_distance, frames, expect_reject)
+        };
+    }
     if plan.cfg.predict_default {
         Ok(World::<CfgDefault>::new(plan)?.run())
     } else {
